@@ -22,16 +22,23 @@ pub struct Profile {
     /// max statements at top level
     pub top: usize,
     pub depth: usize,
+    /// run-time type tests also on arrays and nested compound types, whose run-time type depends
+    /// on how they were built (only for checks that do not compare with the reference interpreter)
+    pub free_dispatch: bool,
 }
 
 impl Profile {
-    pub const GENERAL: Profile = Profile { effects: 2, scoping: 2, control: 2, cells: 2, iterators: 2, failing: 1, top: 10, depth: 3 };
-    pub const SCOPING: Profile = Profile { effects: 1, scoping: 6, control: 2, cells: 2, iterators: 2, failing: 0, top: 12, depth: 3 };
-    pub const EFFECTS: Profile = Profile { effects: 8, scoping: 1, control: 2, cells: 2, iterators: 1, failing: 1, top: 8, depth: 3 };
-    pub const CONTROL: Profile = Profile { effects: 2, scoping: 1, control: 8, cells: 1, iterators: 1, failing: 0, top: 8, depth: 3 };
-    pub const CELLS: Profile = Profile { effects: 1, scoping: 2, control: 1, cells: 8, iterators: 1, failing: 2, top: 12, depth: 3 };
-    pub const ITERATORS: Profile = Profile { effects: 3, scoping: 1, control: 1, cells: 1, iterators: 8, failing: 0, top: 8, depth: 3 };
-    pub const CONSTANTS: Profile = Profile { effects: 1, scoping: 2, control: 3, cells: 1, iterators: 1, failing: 3, top: 10, depth: 3 };
+    pub fn with_free_dispatch(mut self) -> Self {
+        self.free_dispatch = true;
+        self
+    }
+    pub const GENERAL: Profile = Profile { effects: 2, scoping: 2, control: 2, cells: 2, iterators: 2, failing: 1, top: 10, depth: 3, free_dispatch: false };
+    pub const SCOPING: Profile = Profile { effects: 1, scoping: 6, control: 2, cells: 2, iterators: 2, failing: 0, top: 12, depth: 3, free_dispatch: false };
+    pub const EFFECTS: Profile = Profile { effects: 8, scoping: 1, control: 2, cells: 2, iterators: 1, failing: 1, top: 8, depth: 3, free_dispatch: false };
+    pub const CONTROL: Profile = Profile { effects: 2, scoping: 1, control: 8, cells: 1, iterators: 1, failing: 0, top: 8, depth: 3, free_dispatch: false };
+    pub const CELLS: Profile = Profile { effects: 1, scoping: 2, control: 1, cells: 8, iterators: 1, failing: 2, top: 12, depth: 3, free_dispatch: false };
+    pub const ITERATORS: Profile = Profile { effects: 3, scoping: 1, control: 1, cells: 1, iterators: 8, failing: 0, top: 8, depth: 3, free_dispatch: false };
+    pub const CONSTANTS: Profile = Profile { effects: 1, scoping: 2, control: 3, cells: 1, iterators: 1, failing: 3, top: 10, depth: 3, free_dispatch: false };
 }
 
 #[derive(Clone, Debug)]
@@ -165,6 +172,17 @@ impl<'a> Gen<'a> {
     /// a type whose values carry their run-time type unambiguously (for match / if-set tests):
     /// scalars, and tuples, structs and cells of scalars
     fn gen_dispatch_ty(&mut self) -> Ty {
+        if self.p.free_dispatch && self.tape.chance(1, 2) {
+            let a = self.gen_scalar_ty();
+            let b = self.gen_scalar_ty();
+            return match self.tape.below(5) {
+                0 => Ty::arr(a),
+                1 => Ty::arr(a.or(b)),
+                2 => Ty::arr(Ty::arr(a)),
+                3 => Ty::Tup(vec![Ty::arr(a), b]),
+                _ => Ty::cell(Ty::arr(a)),
+            };
+        }
         match self.tape.weighted(&[8, 2, 1, 1]) {
             0 => self.gen_scalar_ty(),
             1 => Ty::Tup(vec![self.gen_scalar_ty(), self.gen_scalar_ty()]),
@@ -361,6 +379,14 @@ impl<'a> Gen<'a> {
                     && let Some(v) = self.var_of_type(t)
                 {
                     return v;
+                }
+                if depth >= 2 && ms.len() >= 2 && self.tape.chance(1, 4) {
+                    // an element of a mixed array: the static type is the union although the value
+                    // (often a constant) is known to be of one member
+                    let items: Vec<Expr> = ms.iter().map(|m| self.expr(m, depth - 1)).collect();
+                    let k = self.tape.range(-(items.len() as i64), items.len() as i64 - 1);
+                    self.label("element of a mixed array");
+                    return Expr::Index(Box::new(Expr::Array(items)), Box::new(Expr::Int(k)));
                 }
                 let m = ms[self.tape.below(ms.len())].clone();
                 self.expr(&m, depth)
@@ -573,7 +599,19 @@ impl<'a> Gen<'a> {
     }
 
     fn slice_bounds(&mut self) -> (Option<Box<Expr>>, Option<Box<Expr>>) {
-        let b = |g: &mut Self| if g.tape.bool() { Some(Box::new(Expr::Int(g.tape.range(-3, 3)))) } else { None };
+        // literal bounds, ticked bounds (their effects happen also when nothing is selected), now
+        // and then a computed one
+        let b = |g: &mut Self| {
+            if !g.tape.bool() {
+                return None;
+            }
+            let lit = Expr::Int(g.tape.range(-3, 3));
+            Some(Box::new(match g.tape.weighted(&[3, 2, 1]) {
+                0 => lit,
+                1 => g.maybe_tick(lit, &Ty::Int),
+                _ => g.expr(&Ty::Int, 1),
+            }))
+        };
         (b(self), b(self))
     }
 
